@@ -28,7 +28,7 @@ LEVEL_NOTE = (
 )
 TECHNIQUE = "property-based testing (Hypothesis) with call-log invariants and a poisoned-input metamorphic relation + coverage-guided fuzzing stage (atheris/libFuzzer driving the same strategy and oracle, thorough tier only)"
 BUDGET = {"quick": 1600, "thorough": 40000}
-FUZZ = {"quick": 0, "thorough": 48000}  # executions of the coverage-guided stage (vlib/fuzz.py)
+FUZZ = {"quick": 0, "thorough": 16000}  # executions of the coverage-guided stage (vlib/fuzz.py)
 SHRINK_SECONDS = {"quick": 30, "thorough": 150}
 RULE = (
     "case = (problem from vlib.gen_matrix.problems with extra higher-order terms, form in {blocked, scalar, scalar in implicit mode}, element "
